@@ -16,13 +16,11 @@ Qed.
 Lemma Tg_id target e : Tg always (id_trig target) (id_force target) e = T_id target e.
 Proof. reflexivity. Qed.
 
-Lemma Tg_irrnum target e :
-  Tg is_irreversible (num_trig target) (irrnum_force target) e = T_irrnum target e.
+Lemma Tg_irrnum first target e :
+  Tg is_irreversible (num_trig target) (num_force first target) e = T_irrnum target e.
 Proof.
-  unfold Tg, num_trig, irrnum_force, T_irrnum, T_num. f_equal.
-  destruct (N.leb_spec target (enum e)) as [H1|H1]; simpl; [reflexivity|].
-  destruct (N.eqb_spec target 0) as [H2|H2]; destruct (N.eqb_spec target 1) as [H3|H3];
-    destruct (N.eqb_spec (enum e) 2) as [H4|H4]; simpl; try reflexivity; lia.
+  pose proof (Tg_num first target e) as H. unfold Tg, always in H. simpl in H.
+  unfold Tg, T_irrnum. f_equal. exact H.
 Qed.
 
 Lemma Tg_irrid target e :
@@ -53,9 +51,9 @@ Lemma suffix_id target incl maxhold l :
     (fw_of (id_gate_step target maxhold) (g_init incl) l).
 Proof. apply latch_suffix; [apply Tg_id | reflexivity]. Qed.
 
-Lemma suffix_irrnum target incl maxhold l :
-  suffix_of_input (T_irrnum target) (I_irrnum target incl) l
-    (fw_of (irrnum_gate_step target maxhold) (g_init incl) l).
+Lemma suffix_irrnum first target incl maxhold l :
+  suffix_of_input (T_irrnum target) (I_irrnum first target incl) l
+    (fw_of (irrnum_gate_step first target maxhold) (g_init incl) l).
 Proof. apply latch_suffix; [apply Tg_irrnum | reflexivity]. Qed.
 
 Lemma suffix_irrid target incl maxhold l :
@@ -115,12 +113,11 @@ Proof.
   - intros first target incl maxhold e l Hlt Hn.
     apply (P1 first target incl maxhold (e :: l) 0%nat e Hlt); [|reflexivity | exact Hn].
     apply first_at_zero. unfold T_num. apply N.leb_le. lia.
-  - intros target incl maxhold l i e Ht Hfa He Hn.
-    destruct (Hirr target incl maxhold l) as [_ H]. rewrite (H i e Hfa He).
-    unfold I_irrnum. replace (enum e =? 2) with true by (symmetry; apply N.eqb_eq; exact Hn).
-    replace ((target =? 0) || (target =? 1)) with true.
-    + rewrite orb_true_r. reflexivity.
-    + symmetry. apply orb_true_iff. destruct Ht as [Ht|Ht]; [left|right]; apply N.eqb_eq; exact Ht.
+  - intros first target incl maxhold l i e Hlt Hfa He Hn.
+    destruct (Hirr first target incl maxhold l) as [_ H]. rewrite (H i e Hfa He).
+    unfold I_irrnum, I_num. replace (target <? first) with true by (symmetry; apply N.ltb_lt; exact Hlt).
+    replace (enum e =? first) with true by (symmetry; apply N.eqb_eq; exact Hn).
+    rewrite orb_true_r. reflexivity.
 Qed.
 
 (* ---- c17_irr_only ---- *)
@@ -135,9 +132,9 @@ Qed.
 
 Theorem c17_irr_only_proof : C17_irr_only.
 Proof.
-  split; intros target maxhold.
-  - apply (ignores_ext _ _ _ (Tg_irrnum target)).
-    apply (latch_ignores is_irreversible (num_trig target) (irrnum_force target) maxhold).
+  split; [intros first target maxhold | intros target maxhold].
+  - apply (ignores_ext _ _ _ (Tg_irrnum first target)).
+    apply (latch_ignores is_irreversible (num_trig target) (num_force first target) maxhold).
     reflexivity.
   - apply (ignores_ext _ _ _ (Tg_irrid target)).
     apply (latch_ignores is_irreversible (id_trig target) (id_force target) maxhold).
@@ -163,13 +160,26 @@ Proof.
   refine (conj _ (conj _ (conj _ (conj _ (conj _ (conj _ (conj _ (conj _ _)))))))).
   - intros first target maxhold. apply latch_holdoff. apply Tg_num.
   - intros target maxhold. apply latch_holdoff. apply Tg_id.
-  - intros target maxhold. apply latch_holdoff. apply Tg_irrnum.
+  - intros first target maxhold. apply latch_holdoff. apply Tg_irrnum.
   - intros target maxhold. apply latch_holdoff. apply Tg_irrid.
   - intros first target maxhold incl. apply handler_propagates_any.
   - intros target maxhold incl. apply handler_propagates_any.
-  - intros target maxhold incl. apply handler_propagates_any.
+  - intros first target maxhold incl. apply handler_propagates_any.
   - intros target maxhold incl. apply handler_propagates_any.
   - apply handler_propagates_any.
+Qed.
+
+(* ---- IrreversibleBlockNumGate as shipped: first streamable block 1, target 0, exclusive, events
+   Irreversible 1, 2, 3: the irreversible event of block 1 is swallowed ---- *)
+
+Theorem c17_irr_num_unfixed_refuted_proof : C17_irr_num_unfixed_refuted.
+Proof.
+  exists 1, 0, false, 15000%Z,
+    [mkEv [49;97] 1 16 false; mkEv [50;97] 2 16 false; mkEv [51;97] 3 16 false], 0%nat,
+    (mkEv [49;97] 1 16 false).
+  split; [reflexivity|]. split.
+  - split; [eexists; split; [reflexivity | vm_compute; reflexivity] | intros j x Hj; lia].
+  - split; [reflexivity|]. split; [reflexivity|]. vm_compute. congruence.
 Qed.
 
 (* ---- the gate as shipped ignores the step: witness = the New event of the target block ---- *)
